@@ -133,9 +133,14 @@ def main(argv):
                      [("iface:%d" % i, "module m\ninterface g\n%s\nend interface g\nend module m\n" % x) for i, x in enumerate(ER.IFACE)] + \
                      [("format:%d" % i, "program p\n100 format(%s)\nend program p\n" % x) for i, x in enumerate(ER.FORMATS)]
             programs = programs + [(n, x, std) for n, x in corpus for std in ("f2003", "f2008")]
+            if "C01" in only:
+                # operand inflation (see bounded_tokens.inflated_programs): each operand in turn made a parenthesised expression,
+                # a call or a literal with brackets - the printed text has to come back to the same tree
+                from checks import bounded_tokens as BTK
+                programs = programs + BTK.inflated_programs()[:: (1 if tier == "thorough" else 2)]
         previous = None
         for name, src, std in programs:
-            for kw in modes():
+            for kw in (modes() if not name.startswith("inflated:") else [dict()]):
                 cases += 1
                 wit = dict(program=name, std=std, options=kw, source=src)
                 try:
